@@ -64,13 +64,14 @@ func init() {
 		}
 		cfgs := []*HarnessCfg{
 			{Name: "VerifC16_Collect", Pkg: cliPkg, Solver: "z3", MaxPaths: 400000},
-			{Name: "VerifC16_FileErrors", Pkg: cliPkg, Solver: "z3", Stubs: stubs, MaxPaths: 400000},
-			{Name: "VerifC16_Strict", Pkg: cliPkg, Solver: "z3", Stubs: stubs, MaxPaths: 400000},
+			{Name: "VerifC16_FileErrors", Pkg: cliPkg, Solver: "z3", Stubs: stubs, MaxPaths: 400000, EngineReplay: true},
+			{Name: "VerifC16_Strict", Pkg: cliPkg, Solver: "z3", Stubs: stubs, MaxPaths: 400000, EngineReplay: true},
 		}
 		c.Assumptions = append(c.Assumptions,
 			"directory tree of fixed shape (root -> {dir -> {dir -> {file}, file}, file}) with symbolic names over [a-z._]: directory names of 1,2,6,7 bytes, file names of 3,4,9,10 bytes; WalkDir follows the documented contract (pre-order, SkipDir prunes) and is part of the harness",
 			"file sizes are arbitrary non-negative 64-bit values; stat/read failures and unloadable sources are symbolic flags; the Go loader (diff.FingerprintSourceAdvanced) is a stub that rejects exactly the marked sources",
-			"worker goroutines of ProcessFilesParallel are run to completion one after another (errgroup model); per-function coverage/attribution and the panic-recovery path are not claimed")
+			"worker goroutines of ProcessFilesParallel are run to completion one after another (errgroup model); per-function coverage/attribution and the panic-recovery path are not claimed",
+			"the loader stub and the completion order of workers cannot be forced natively: counterexamples of the file-error harnesses that do not reproduce natively are confirmed by concrete re-execution of the SSA")
 		c.runModeT([]string{"internal/cli"}, cfgs)
 	}
 }
